@@ -6,12 +6,18 @@
 (* token equality per call.  The machine: the foreign caller starts a call *)
 (* (CCall), the Rust method body starts (Enter) and must see exactly the   *)
 (* caller's tokens, finishes with a value (Return) and the caller observes *)
-(* it (CReturn).  Calls nest through callbacks.  A C++ caller may refuse a *)
-(* call whose &str argument is not valid UTF-8 before it reaches Rust.     *)
+(* it (CReturn).  Calls nest through callbacks: a call may hand over       *)
+(* callback objects (`impl Fn` parameters, {data, run_callback, destructor}*)
+(* on the wire); the running body may invoke a live callback (CbCall: a    *)
+(* nested call in the opposite direction), and every callback handed over  *)
+(* is destroyed exactly once, after its last invocation and before the     *)
+(* caller sees the call return.  A C++ caller may refuse a call whose &str *)
+(* argument is not valid UTF-8 before it reaches Rust.                     *)
 (***************************************************************************)
 EXTENDS Naturals, Sequences
 CONSTANTS MaxDepth
-VARIABLES stack,     \* in-flight calls, innermost last: [f, args, mr, phase, ret]
+VARIABLES stack,     \* in-flight calls, innermost last: [f, args, mr, phase, ret, cbs, dead]
+                     \*   cbs: callbacks handed over with the call that are still alive; dead: those already destroyed
           rejected,  \* the binding refused the innermost call (invalid UTF-8)
           entered    \* ghost: how many times each finished or in-flight top-level call entered Rust (last call only)
 vars == <<stack, rejected, entered>>
@@ -22,12 +28,25 @@ SetTop(fr) == stack' = [stack EXCEPT ![Len(stack)] = fr]
 Pop == stack' = SubSeq(stack, 1, Len(stack) - 1)
 
 \* the foreign side calls f(args) through the binding.  mr: the arguments carry invalid UTF-8 in a direct &str parameter
-CCall(f, args, mr) ==
+CCallCb(f, args, mr, cbs) ==
   /\ Len(stack) < MaxDepth /\ ~rejected
   /\ IF stack = <<>> THEN TRUE ELSE Top.phase = "entered"        \* nested calls only from inside a running body
-  /\ Push([f |-> f, args |-> args, mr |-> mr, phase |-> "called", ret |-> "-"])
+  /\ Push([f |-> f, args |-> args, mr |-> mr, phase |-> "called", ret |-> "-", cbs |-> cbs, dead |-> {}])
   /\ entered' = IF stack = <<>> THEN 0 ELSE entered
   /\ UNCHANGED rejected
+CCall(f, args, mr) == CCallCb(f, args, mr, {})
+\* the running body invokes callback c that came with its call: only while c is alive
+CbCall(c, args) ==
+  /\ Len(stack) < MaxDepth /\ ~rejected /\ stack # <<>>
+  /\ IF stack = <<>> THEN FALSE ELSE (Top.phase = "entered" /\ c \in Top.cbs)
+  /\ Push([f |-> c, args |-> args, mr |-> FALSE, phase |-> "called", ret |-> "-", cbs |-> {}, dead |-> {}])
+  /\ UNCHANGED <<rejected, entered>>
+\* the callee releases callback c (its destructor runs): once, while or after the body runs, never while c itself is running
+CbDrop(c) ==
+  /\ stack # <<>>
+  /\ IF stack = <<>> THEN FALSE ELSE (Top.phase \in {"entered", "returned"} /\ c \in Top.cbs)
+  /\ SetTop([Top EXCEPT !.cbs = @ \ {c}, !.dead = @ \cup {c}])
+  /\ UNCHANGED <<rejected, entered>>
 \* the binding refuses the call before it reaches Rust
 Reject == /\ stack # <<>> /\ ~rejected
           /\ IF stack = <<>> THEN FALSE ELSE (Top.phase = "called" /\ Top.mr)
@@ -49,11 +68,12 @@ CReturn(f, ret) ==
   /\ stack # <<>>
   /\ IF stack = <<>> THEN FALSE
      ELSE /\ f = Top.f
-          /\ \/ (Top.phase = "returned" /\ ~rejected /\ ret = Top.ret /\ UNCHANGED rejected)
+          /\ \/ (Top.phase = "returned" /\ ~rejected /\ ret = Top.ret /\ Top.cbs = {} /\ UNCHANGED rejected)
              \/ (Top.phase = "called" /\ rejected /\ ret = "err(utf8)" /\ rejected' = FALSE)
   /\ Pop /\ UNCHANGED entered
-Next == \E f \in {"f"}, a \in {"x", "y"} :
-          \/ \E m \in BOOLEAN : CCall(f, a, m)
+Next == \E f \in {"f", "c1", "c2"}, a \in {"x", "y"} :
+          \/ \E m \in BOOLEAN, cs \in SUBSET {"c1", "c2"} : f = "f" /\ CCallCb(f, a, m, cs)
+          \/ (f # "f" /\ (CbCall(f, a) \/ CbDrop(f)))
           \/ Enter(f, a) \/ Return(f, a) \/ CReturn(f, a) \/ CReturn(f, "err(utf8)") \/ Reject
 Spec == Init /\ [][Next]_vars
 
@@ -62,6 +82,9 @@ Spec == Init /\ [][Next]_vars
 WellNested == \A i \in 1..Len(stack) : i < Len(stack) => stack[i].phase = "entered"
 \* a refused call never reaches Rust
 RejectedNeverEnters == rejected => (IF stack = <<>> THEN FALSE ELSE Top.phase = "called")
+\* a destroyed callback is never running and never alive again (no use after destruction, no double destruction)
+NoUseAfterDrop == \A i \in 1..Len(stack) : /\ stack[i].cbs \cap stack[i].dead = {}
+                                          /\ (i < Len(stack) => stack[i + 1].f \notin stack[i].dead)
 \* a top-level call enters Rust at most once
 AtMostOnce == entered <= 1
 \* ... and a call that returned normally entered exactly once
